@@ -33,8 +33,8 @@ ASSUMPTIONS = [
     "granted so far covers everything written; a receiver window of 1 never replenishes on its own "
     "(left < size // 2 is never true) - that stall is accepted, the manual adjustWindow event provides grants there",
 ]
-MIN = {"quick": {"states": 100000, "nontrivial": 50000, "outcomes": 5},
-       "thorough": {"states": 100000, "nontrivial": 50000, "outcomes": 5}}
+MIN = {"quick": {"states": 158000, "nontrivial": 117000, "outcomes": 5},
+       "thorough": {"states": 1600000, "nontrivial": 1600000, "outcomes": 5}}
 
 WINDOWS = [1, 2, 3, 4, 5]
 MAXPACKETS = [1, 2, 3]
@@ -146,6 +146,7 @@ class St:
         self.chB = self.B.channels[0]
         self.bad = []
         self.flags = set()
+        self.nevents = 0
         # reference model
         self.ref_window = win          # what A may still send: advertised by B, adjusted by delivered WINDOW_ADJUSTs
         self.granted = win             # total ever granted to A (delivered)
@@ -242,6 +243,7 @@ class St:
 
 def apply(st, ev):
     op = ev[0]
+    st.nevents += 1
     st.pre_unsent = {k: len(st.written[k]) - len(st.emitted[k]) for k in st.written}
     if op == "w":
         n = ev[1]
@@ -372,15 +374,37 @@ def limits(tier, win=1):
     return {"writes": 4, "adj": 2, "depth": 10}
 
 
+FIRST_GROUPS = [
+    [("w", 1), ("w", 3), ("w", 5)],
+    [("x", 1, 1), ("x", 1, 3), ("x", 2, 1), ("x", 2, 3)],
+    [("close",), ("adj", 1), ("adj", 2)],
+]
+
+
 def shards(tier, seed):
-    # one shard per configuration: the whole search of a configuration shares one visited set
-    return [[w, p] for w in WINDOWS for p in MAXPACKETS]
+    # one shard per configuration x group of first events: each shard has its own visited set
+    # (only the window-1 configurations - two manual adjustments, largest searches - are split; group -1 = no split)
+    out = []
+    for w in WINDOWS:
+        for p in MAXPACKETS:
+            if w == 1 or tier == "thorough":
+                out.extend([w, p, g] for g in range(len(FIRST_GROUPS)))
+            else:
+                out.append([w, p, -1])
+    return out
 
 
 def run_shard(shard, tier, seed):
-    w, p = shard
+    w, p, g = shard
     lim = limits(tier, w)
     stats = Stats()
+    group = FIRST_GROUPS[g] if g >= 0 else None
+
+    def enabled_g(st):
+        evs = enabled(st)
+        if st.nevents == 0 and group is not None:
+            evs = [e for e in evs if e in group]
+        return evs
 
     def on_state(st, hist):
         if st.flags:
@@ -392,7 +416,9 @@ def run_shard(shard, tier, seed):
         if st.granted > st.win:
             stats.outcome("window-replenished")
 
-    res = bfs(lambda: St(w, p, lim), apply, enabled, canon, invariant, lim["depth"], on_state=on_state)
+    res = bfs(lambda: St(w, p, lim), apply, enabled_g, canon, invariant, lim["depth"], on_state=on_state)
+    if g > 0:
+        res.states -= 1      # the initial state is counted by group 0
     stats.add_bfs(res, {"config": [w, p], "tier": tier})
     stats.samples = [{"config": [w, p], "history": h} for h in res.samples[:1]]
     return stats
